@@ -269,6 +269,12 @@ func deserializeIndex(src io.Reader) (systemFontsIndex, error) {
 		out = append(out, fp)
 	}
 
+	// reach the end of the stream, so that the gzip checksum is verified:
+	// a corrupted index must not be mistaken for a valid one
+	if _, err := io.Copy(io.Discard, r); err != nil {
+		return nil, fmt.Errorf("invalid index: %s", err)
+	}
+
 	return out, nil
 }
 
